@@ -266,7 +266,7 @@ func c07Gen(c *Ctx) {
 		streamEval(c, Case{"op": "stream", "class": "fixture", "bytes": hx(b)}, "C07")
 	}
 	for i := 0; i < c.N(1500, 60000); i++ {
-		ls, b := genStream(c, c.Rng.Intn(4) != 0, c.N(6, 12))
+		ls, b := genStream(c, c.Rng.Intn(4) != 0, c.P(6, 12))
 		cls := fmt.Sprintf("wf/%dlists", len(ls))
 		for _, l := range ls {
 			if bytes.Equal(l.typ, tEXT) {
@@ -282,7 +282,7 @@ func c07Gen(c *Ctx) {
 	// databases built through the library's own operations
 	u := newC09Universe(c)
 	for i := 0; i < c.N(500, 20000); i++ {
-		h := genHistory(c, u, c.N(10, 30))
+		h := genHistory(c, u, c.P(10, 30))
 		ops := h["ops"].([]interface{})
 		// C07 also reaches what C09 deliberately leaves out: lists holding one entry more than once
 		// (decoded, or built through the list-level API from the DER and the PEM form of one
@@ -345,7 +345,7 @@ func c08Gen(c *Ctx) {
 			continue
 		}
 		// keep lists small so that every truncation point can be tried
-		if len(b) > c.N(700, 3000) {
+		if len(b) > c.P(700, 3000) {
 			continue
 		}
 		emit("wf", b)
